@@ -590,14 +590,16 @@ top:
 		return nil
 
 	case LexerUnquote:
+		lexer.state = LexerNormal
 		if r == '@' {
 			lexer.AppendToken(lexer.Token(TokenTildeAt, ""))
-		} else {
-			lexer.AppendToken(lexer.Token(TokenTilde, ""))
-			lexer.buffer.WriteRune(r)
+			return nil
 		}
-		lexer.state = LexerNormal
-		return nil
+		lexer.AppendToken(lexer.Token(TokenTilde, ""))
+		// the rune after the tilde starts the unquoted expression:
+		// lex it like any other rune (it may be a parenthesis or a
+		// space), instead of gluing it onto the next atom.
+		goto top
 	case LexerFreshAssignOrColon:
 		lexer.state = LexerNormal
 
